@@ -47,6 +47,31 @@ def exc_name(e):
     return type(e).__name__
 
 
+# The virtual clock of a script counts seconds from 0.  The code under test sees it through BOTH clock sources of the
+# `time` module, with different epochs as on a real machine: time.time() is a date (about 1.8e9), time.monotonic()
+# is "seconds since boot".  Code that writes a deadline with one source and sweeps with the other therefore misbehaves
+# here exactly as it would in reality.  Deadlines are rendered relative to WALL_EPOCH (the model counts from 0).
+WALL_EPOCH = 1790000000
+MONO_EPOCH = 345600
+
+
+def clock_shim(world):
+    """stands for the `time` module inside sshuttle.client / sshuttle.server"""
+    return Shim(real_time,
+                time=lambda: float(WALL_EPOCH + world.now),
+                time_ns=lambda: (WALL_EPOCH + world.now) * 10 ** 9,
+                monotonic=lambda: float(MONO_EPOCH + world.now),
+                monotonic_ns=lambda: (MONO_EPOCH + world.now) * 10 ** 9,
+                perf_counter=lambda: float(MONO_EPOCH + world.now),
+                perf_counter_ns=lambda: (MONO_EPOCH + world.now) * 10 ** 9,
+                sleep=lambda s: None)
+
+
+def rel_t(t):
+    """a deadline kept by the code under test, in virtual seconds"""
+    return int(t) - WALL_EPOCH
+
+
 class Shim:
     """a module look-alike: named attributes overridden, everything else delegated"""
 
@@ -261,85 +286,141 @@ def _kind_of(cb):
     return "?"
 
 
+def _tok(x):
+    """a table key / value the canonical format has no place for (only code that departs from the model produces
+    one): rendered so that the step string stays parseable; the comparison with the model then shows the difference"""
+    return "?" + "".join(c if c.isalnum() or c in "._@~-" else "_" for c in repr(x))
+
+
+def _addr_tok(p):
+    try:
+        return addr_s(p)
+    except Exception:
+        return _tok(p)
+
+
 def _client_state(client, mux):
-    ch = ",".join("%d:%s" % (c, _kind_of(cb)) for c, cb in mux.channels.items() if cb is not None)
-    dns = ",".join("%d:%d" % (c, int(t)) for c, t in client.dnsreqs.items())
-    udp = ",".join("%s:%d:%d" % (addr_s(p), c, int(t)) for p, (c, t) in client.udp_by_src.items())
+    try:
+        ch = ",".join("%d:%s" % (c, _kind_of(cb)) for c, cb in mux.channels.items() if cb is not None)
+    except Exception:
+        ch = _tok(sorted(mux.channels, key=repr))
+    try:
+        dns = ",".join("%d:%d" % (c, rel_t(t)) for c, t in client.dnsreqs.items())
+    except Exception:
+        dns = _tok(client.dnsreqs)
+    parts = []
+    for p, v in client.udp_by_src.items():
+        try:
+            c, t = v
+            parts.append("%s:%d:%d" % (_addr_tok(p), c, rel_t(t)))
+        except Exception:
+            parts.append("%s:%s" % (_addr_tok(p), _tok(v)))
+    udp = ",".join(parts)
     return "chan=%s chani=%d dns=%s udp=%s" % (ch or "~", mux.chani, dns or "~", udp or "~")
+
+
+class ClientSession:
+    """the real client functions on a real ssnet.Mux inside the simulated boundary, one event at a time
+    (so that a generator can look at what the real code did before it chooses the next event)"""
+
+    def __init__(self, method, maxc, family):
+        import sshuttle.client as client
+        import sshuttle.ssnet as ssnet
+        import sshuttle.helpers as helpers
+        import sshuttle.methods as methods
+        import sshuttle.methods.tproxy as tproxy
+        self.m = (client, ssnet, helpers, tproxy)
+        world = self.world = ClientWorld(family)
+        world.send_stage = 1
+        self.saved = (ssnet.MAX_CHANNEL, ssnet.set_non_blocking_io, client.time, client.log, client.islocal,
+                      tproxy.socket, helpers.log, ssnet.log)
+        self.handlers = []
+        self.dead = False
+        self.open = True
+        try:
+            ssnet.MAX_CHANNEL = maxc
+            ssnet.set_non_blocking_io = lambda fd: None
+            client.time = clock_shim(world)
+            client.log = helpers.log = ssnet.log = lambda s: None
+            client.islocal = lambda ip, fam: False
+            tproxy.socket = Shim(real_socket, socket=make_sender_class(world))
+            client.dnsreqs.clear()
+            client.udp_by_src.clear()
+            self.mux = ssnet.Mux(FakeR(), FakeW())
+            self.mux.outbuf = []
+            self.meth = tproxy.Method("tproxy") if method == "T" else methods.BaseMethod("nat")
+            self.listener = FakeListener(world)
+        except BaseException:
+            self.close()
+            raise
+
+    def step(self, ev):
+        """one event; returns its canonical step string (same format as the model driver)"""
+        client, ssnet, helpers, tproxy = self.m
+        world, mux, meth, listener, handlers = self.world, self.mux, self.meth, self.listener, self.handlers
+        world.dgrams = []
+        try:
+            if ev[0] in ("D", "U"):
+                _, now, src, dst, data = ev
+                world.now = now
+                world.next = (src, dst, data)
+                if ev[0] == "D":
+                    client.ondns(listener, meth, mux, handlers)
+                else:
+                    client.onaccept_udp(listener, meth, mux, handlers)
+            elif ev[0] == "T":
+                _, now, fam, dst = ev
+                world.now = now
+
+                class TL:
+                    def accept(self):
+                        return FakeTcpSock(fam, dst), ("127.0.0.1", 40000)
+                client.onaccept_tcp(TL(), meth, mux, handlers)
+            else:
+                _, ch, cmdkey, data, err = ev[:5]
+                world.send_err = err
+                world.send_stage = ev[5] if len(ev) > 5 else 1
+                try:
+                    mux.got_packet(ch, CMD[cmdkey], data)
+                finally:
+                    world.send_err = None
+        except helpers.Fatal:
+            self.dead = True
+            return "FATAL"
+        except Exception as e:
+            self.dead = True
+            return "CRASH " + exc_name(e)
+        frames = ["F:%d:%d:%s" % (c, cmd, hx(d)) for c, cmd, d in parse_frames(mux.outbuf)]
+        mux.outbuf = []
+        outs = frames + world.dgrams
+        return "OK %s | %s" % (",".join(outs) or "~", _client_state(client, mux))
+
+    def close(self):
+        if not self.open:
+            return
+        self.open = False
+        client, ssnet, helpers, tproxy = self.m
+        (ssnet.MAX_CHANNEL, ssnet.set_non_blocking_io, client.time, client.log, client.islocal,
+         tproxy.socket, helpers.log, ssnet.log) = self.saved
+        client.dnsreqs.clear()
+        client.udp_by_src.clear()
+        # the Proxy objects of TCP accepts were kept alive until here; let them go quietly
+        self.handlers[:] = []
 
 
 def run_client(method, maxc, family, events):
     """events: ("D"|"U", now, src, dst|None, payload) | ("T", now, family, dst) |
                ("F", ch, cmdkey, payload, None|errno[, stage])
     returns the list of canonical per-step strings (same format as the model driver)"""
-    import sshuttle.client as client
-    import sshuttle.ssnet as ssnet
-    import sshuttle.helpers as helpers
-    import sshuttle.methods as methods
-    import sshuttle.methods.tproxy as tproxy
-    world = ClientWorld(family)
-    world.send_stage = 1
-    saved = (ssnet.MAX_CHANNEL, ssnet.set_non_blocking_io, client.time, client.log, client.islocal,
-             tproxy.socket, helpers.log, ssnet.log)
+    s = ClientSession(method, maxc, family)
     out = []
-    handlers = []
     try:
-        ssnet.MAX_CHANNEL = maxc
-        ssnet.set_non_blocking_io = lambda fd: None
-        client.time = Shim(real_time, time=lambda: float(world.now))
-        client.log = helpers.log = ssnet.log = lambda s: None
-        client.islocal = lambda ip, fam: False
-        tproxy.socket = Shim(real_socket, socket=make_sender_class(world))
-        client.dnsreqs.clear()
-        client.udp_by_src.clear()
-        mux = ssnet.Mux(FakeR(), FakeW())
-        mux.outbuf = []
-        meth = tproxy.Method("tproxy") if method == "T" else methods.BaseMethod("nat")
-        listener = FakeListener(world)
         for ev in events:
-            world.dgrams = []
-            try:
-                if ev[0] in ("D", "U"):
-                    _, now, src, dst, data = ev
-                    world.now = now
-                    world.next = (src, dst, data)
-                    if ev[0] == "D":
-                        client.ondns(listener, meth, mux, handlers)
-                    else:
-                        client.onaccept_udp(listener, meth, mux, handlers)
-                elif ev[0] == "T":
-                    _, now, fam, dst = ev
-                    world.now = now
-
-                    class TL:
-                        def accept(self):
-                            return FakeTcpSock(fam, dst), ("127.0.0.1", 40000)
-                    client.onaccept_tcp(TL(), meth, mux, handlers)
-                else:
-                    _, ch, cmdkey, data, err = ev[:5]
-                    world.send_err = err
-                    world.send_stage = ev[5] if len(ev) > 5 else 1
-                    try:
-                        mux.got_packet(ch, CMD[cmdkey], data)
-                    finally:
-                        world.send_err = None
-            except helpers.Fatal:
-                out.append("FATAL")
+            out.append(s.step(ev))
+            if s.dead:
                 break
-            except Exception as e:
-                out.append("CRASH " + exc_name(e))
-                break
-            frames = ["F:%d:%d:%s" % (c, cmd, hx(d)) for c, cmd, d in parse_frames(mux.outbuf)]
-            mux.outbuf = []
-            outs = frames + world.dgrams
-            out.append("OK %s | %s" % (",".join(outs) or "~", _client_state(client, mux)))
     finally:
-        (ssnet.MAX_CHANNEL, ssnet.set_non_blocking_io, client.time, client.log, client.islocal,
-         tproxy.socket, helpers.log, ssnet.log) = saved
-        client.dnsreqs.clear()
-        client.udp_by_src.clear()
-        # keep the Proxy objects of TCP accepts alive until here, then let them go quietly
-        handlers[:] = []
+        s.close()
     return out
 
 
@@ -390,7 +471,12 @@ class ServerWorld:
         self.handlers = None
         self.mux = None
 
-    def pop(self):
+    def pop(self, op=None):
+        """the environment's answer to the next socket operation.  ("P", errno, ops) is a PERSISTENT fault rule: it
+        stays at the head for the rest of the iteration; every operation named in ops fails with errno, every other
+        one succeeds (used by the C08 datagram scenarios; the model-compared scripts never contain it)"""
+        if self.io and self.io[0][0] == "P":
+            return ("e", self.io[0][1]) if op in self.io[0][2] else ("k",)
         return self.io.pop(0) if self.io else ("k",)
 
 
@@ -407,14 +493,14 @@ def make_sock_class(world):
             return 100 + self.id
 
         def connect(self, a):
-            it = world.pop()
+            it = world.pop("connect")
             if it[0] == "e":
                 world.log.append("C:%d:%s:0" % (self.id, addr_s(a)))
                 raise OSError(it[1], "scripted connect")
             world.log.append("C:%d:%s:1" % (self.id, addr_s(a)))
 
         def send(self, data):
-            it = world.pop()
+            it = world.pop("send")
             if it[0] == "e":
                 world.log.append("S:%d:%s:0" % (self.id, hx(data)))
                 raise OSError(it[1], "scripted send")
@@ -422,7 +508,7 @@ def make_sock_class(world):
             return len(data)
 
         def recv(self, n):
-            it = world.pop()
+            it = world.pop("recv")
             if it[0] == "e":
                 raise OSError(it[1], "scripted recv")
             if it[0] in ("d", "f"):
@@ -430,7 +516,7 @@ def make_sock_class(world):
             return b""
 
         def recvfrom(self, n):
-            it = world.pop()
+            it = world.pop("recvfrom")
             if it[0] == "e":
                 raise OSError(it[1], "scripted recvfrom")
             if it[0] == "f":
@@ -442,7 +528,7 @@ def make_sock_class(world):
         def sendto(self, data, a):
             if not (0 <= a[1] <= 65535):
                 raise OverflowError("sendto(): port must be 0-65535.")
-            it = world.pop()
+            it = world.pop("sendto")
             if it[0] == "e":
                 world.log.append("T:%d:%s:%s:0" % (self.id, addr_s(a), hx(data)))
                 raise OSError(it[1], "scripted sendto")
@@ -460,7 +546,7 @@ def _server_state(world, server):
     for h in hs:
         if isinstance(h, server.DnsProxy):
             parts.append("D.%d.%d.%s.%d.%d" % (h.chan, h.tries, "+".join(str(s.id) for s in h.socks) or "~",
-                                              int(h.timeout), 1 if h.ok else 0))
+                                              rel_t(h.timeout), 1 if h.ok else 0))
         elif isinstance(h, server.UdpProxy):
             parts.append("U.%d.%d.%d" % (h.chan, h.sock.id, 1 if h.ok else 0))
         else:
@@ -542,7 +628,7 @@ def run_server(to_ns, sysns, events):
              ssnet.runonce, ssnet.set_non_blocking_io, ssnet.log, helpers.log, sys.stdout)
     try:
         server.socket = Shim(real_socket, socket=make_sock_class(world), getaddrinfo=gai)
-        server.time = Shim(real_time, time=lambda: float(world.now))
+        server.time = clock_shim(world)
         server.io = Shim(real_io, FileIO=lambda fd, mode="r": world.rfile if fd == 0 else world.wfile)
         server.get_random_nameserver = grn
         server.log = ssnet.log = helpers.log = lambda s: None
@@ -574,6 +660,8 @@ def io_s(it):
         return "d%s" % hx(it[1])
     if it[0] == "n":
         return "n%d" % it[1]
+    if it[0] == "P":
+        raise ValueError("persistent fault rules are not part of the model's script language")
     return "f%s@%s@%d" % (hx(it[1]), hx(it[2][0]), it[2][1])
 
 
@@ -826,6 +914,9 @@ def oracle_client(prop, method, maxc, family, evs, steps):
                 if src in assoc:
                     if assoc[src] != ch or opens:
                         bad.append(("c11_shared_socket", "step %d source %r moved from channel %d to %d" % (i, src, assoc[src], ch)))
+                        # follow the wire, so that the later steps of this script are judged on their own
+                        assoc[src] = ch
+                        owner[ch] = ["udp", src]
                 else:
                     if len(opens) != 1 or int(opens[0][1]) != ch or unhx(opens[0][3]) != b"%d" % family:
                         bad.append(("c11_open", "step %d new association without a proper UDP_OPEN" % i))
@@ -911,6 +1002,21 @@ def oracle_server(prop, to_ns, sysns, evs, steps):
         for o in ts:
             if (o[2], unhx(o[3])) not in datas:
                 bad.append(("c11_one_to_one", "step %d: sendto %r matches no UDP_DATA frame" % (i, o)))
+        # one remote socket per association: UDP_OPEN c creates a socket (K token); until UDP_CLOSE c every UDP_DATA c
+        # leaves through that very socket (frames and socket calls are logged in the order the real loop made them)
+        ks = [o for o in outs if o[0] == "K"]
+        ki = ti = 0
+        for ch, k, d, tag in frames:
+            if k == "O" and ki < len(ks):
+                udp_sock[ch] = int(ks[ki][1])
+                ki += 1
+            elif k == "C":
+                udp_sock.pop(ch, None)
+            elif k == "D" and ch in udp_sock and ti < len(ts):
+                if int(ts[ti][1]) != udp_sock[ch]:
+                    bad.append(("c11_shared_socket", "step %d: UDP_DATA on identifier %d left through socket %s, the "
+                                "association's socket is %d" % (i, ch, ts[ti][1], udp_sock[ch])))
+                ti += 1
         # every UDP_DATA frame sent back is one received datagram, header = the replying peer
         back = [o for o in outs if o[0] == "F" and int(o[2]) == CMD["D"]]
         froms = [("%s,%d," % (it[2][0], it[2][1])).encode() + it[1][:4096] for it in io if it[0] == "f"] + \
@@ -1288,6 +1394,13 @@ def run_check(ctx, prop):
     for _ in range(400 if quick else 6000):
         m, mc, fam, evs = gen_client_script(rng, prop, quick)
         cases.append((m, mc, fam, evs, "random"))
+    # flow life cycles (well-formed events only, generated while watching the real code): pending queries with TCP
+    # accepts / UDP datagrams / other queries in between, sources sending to several destinations, tiny identifier spaces
+    cases += [(m, mc, fam, evs, "flows_handmade") for m, mc, fam, evs in handmade_flow_scripts()]
+    for i in range(200 if quick else 3000):
+        profile = (["expiry", "wrap", "expiry"] if prop == "C10" else ["fanout", "expiry", "fanout", "wrap"])[i % (3 if prop == "C10" else 4)]
+        m, mc, fam, evs = gen_flow_script(rng, profile, quick)[:4]
+        cases.append((m, mc, fam, evs, "flows_" + profile))
     lines, impls = [], []
     for m, mc, fam, evs, kind in cases:
         lines.append(client_line(fx, m, mc, fam, evs))
@@ -1304,7 +1417,13 @@ def run_check(ctx, prop):
             ctx.count("client_scripts_with_udp_close")
         if mc < 10:
             ctx.count("client_scripts_tiny_max_channel")
-        viol = oracle_client(prop, m, mc, fam, evs, impl)
+        tr = track_flows(m, mc, fam, evs, impl)
+        viol = oracle_client(prop, m, mc, fam, evs, impl) + flow_violations(prop, tr)
+        if kind.startswith("flows"):
+            viol += crash_of_valid_script(m, evs, impl)
+        ctx.count("client_dns_replies_for_pending_query", tr.n.get("dns_replies_for_pending_query", 0))
+        ctx.count("client_udp_replies_for_open_association", tr.n.get("udp_replies_for_open_association", 0))
+        ctx.count("client_associations_with_2plus_destinations", tr.fanout_sources())
         ctx.case(("client", ln), nontrivial=(nd > 0 or len(impl) > 2),
                  sample={"side": "client", "method": m, "max_channel": mc, "events": len(evs), "last_step": impl[-1][:160] if impl else ""})
         if impl != model:
@@ -1312,7 +1431,7 @@ def run_check(ctx, prop):
             ctx.disagree("client step %d" % k, ser_client(m, mc, fam, evs[:k + 1]), (impl + ["<end>"])[k][:600],
                          (model + ["<end>"])[k][:600], holds=not viol)
         for what, detail in viol:
-            if what == "crash" and not all(fx[k] for k in ("F3", "F16")):
+            if what in ("crash", "raised") and not all(fx[k] for k in ("F3", "F16")):
                 continue      # reported once through the defect witnesses
             ctx.violation(what, {"script": ser_client(m, mc, fam, evs), "detail": detail})
 
@@ -1356,7 +1475,7 @@ def replay(ctx, rp, prop):
     if sc and sc.get("side") == "client":
         m, mc, fam, evs = des_client(sc)
         impl = run_client(m, mc, fam, evs)
-        v = oracle_client(prop, m, mc, fam, evs, impl)
+        v = oracle_client(prop, m, mc, fam, evs, impl) + flow_violations(prop, track_flows(m, mc, fam, evs, impl))
         print("client script ->", impl[-1] if impl else "", v)
         return bool(v)
     if sc and sc.get("side") == "server":
@@ -1367,3 +1486,576 @@ def replay(ctx, rp, prop):
         return bool(v)
     print("nothing replayable in", rp.get("kind"))
     return False
+
+
+# ======================================================================
+# flows as announced on the wire: an oracle that looks only at the real client's observable behaviour
+# (frames put on the tunnel, datagrams handed to local sockets) and at the script
+
+ST_OPEN, ST_CLOSED, ST_LIMBO = "open", "closed", "limbo"
+ALLOC_KIND = {CMD["Q"]: "dns", CMD["O"]: "udp", CMD["TCPCONNECT"]: "tcp"}
+OWN_FRAME = {"D": CMD["Q"], "U": CMD["D"], "T": CMD["TCPCONNECT"]}
+
+
+def udp_body_ok(data):
+    p = data.split(b",", 2)
+    return len(p) == 3 and p[0] != b"" and p[1].isdigit() and int(p[1]) <= 65535
+
+
+class FlowTracker:
+    """Which flow owns which identifier, decided from the wire alone (never from the tables of the code under test):
+      * DNS_REQ / UDP_OPEN / TCP_CONNECT on identifier c opens a flow owning c;
+      * a UDP flow is closed by UDP_CLOSE c; a DNS flow is closed by the datagram that answers it, or by expiry:
+        Props/C10.v c10_expiry — after an accept event at time t exactly the queries with deadline < t are forgotten.
+        An accept event counts as a sweep when it put its own message on the wire (DNS_REQ / UDP_DATA / TCP_CONNECT);
+        TCP flows are never closed by these scripts;
+      * between "surely open" and "surely closed" a flow is in LIMBO and nothing is demanded (a query whose 30 s are
+        up but which no sweep has met yet; a reply whose delivery was made to fail; a non-reply message on a DNS
+        identifier).  Whether the sweep of an event runs before or after its allocation is left to the code.
+    Reported (names are mapped to property clauses by the caller):
+      late_delivered   a message for an identifier that no flow owns (never opened, or closed and not reassigned)
+                       produced a datagram                                                        [C06]
+      dns_reply_lost   DNS_RESPONSE for a query whose 30 s have not elapsed, delivery not made to fail: not exactly one
+                       datagram to the asker                                                      [C06 C08 C10]
+      udp_reply_lost   well-formed UDP_DATA for an association not closed on the wire: not exactly one datagram to its
+                       source                                                                     [C06 C08 C11]
+      reissued         an identifier put on the wire for a new flow while a surely open flow owns it   [C06]
+      bad_identifier   identifier 0 or above MAX_CHANNEL handed out                               [C06]
+      second_socket    a source that has a live association was given another one                 [C11]
+      closed_active    UDP_CLOSE for an association that carried a datagram less than 30 s ago     [C11]
+      idle_not_closed  a sweep at time t left an association open whose last datagram is older than t - 30   [C11]"""
+
+    def __init__(self, method, maxc, family):
+        self.method, self.maxc, self.family = method, maxc, family
+        self.t = None
+        self.flows = {}
+        self.assoc = {}
+        self.bad = []
+        self.last_alloc = 0
+        self.n = {}
+        self.stopped = False
+
+    def count(self, k, n=1):
+        self.n[k] = self.n.get(k, 0) + n
+
+    def status(self, ch):
+        f = self.flows.get(ch)
+        return f["status"] if f else None
+
+    def pick(self, status, kinds=("dns", "udp")):
+        return [ch for ch, f in self.flows.items() if f["status"] == status and f["kind"] in kinds]
+
+    def feed(self, i, ev, st):
+        if self.stopped:
+            return
+        if not st.startswith("OK "):
+            self.stopped = True
+            return
+        outs = parse_outs(st)
+        if ev[0] == "F":
+            self._message(i, ev, outs)
+        else:
+            self._accept(i, ev, outs)
+
+    def _accept(self, i, ev, outs):
+        self.t = ev[1] if self.t is None else max(self.t, ev[1])
+        t = self.t
+        for f in self.flows.values():
+            if f["kind"] == "dns" and f["status"] == ST_OPEN and f["t0"] + 30 <= t:
+                f["status"] = ST_LIMBO
+        frames = [(int(o[1]), int(o[2]), unhx(o[3])) for o in outs if o[0] == "F"]
+        closed_here = set()
+        for ch, cmd, data in frames:
+            f = self.flows.get(ch)
+            if cmd == CMD["C"]:
+                if f and f["kind"] == "udp" and f["status"] != ST_CLOSED:
+                    if t - f["last"] < 30:
+                        self.bad.append(("closed_active", "step %d: UDP_CLOSE for identifier %d of source %r whose last "
+                                         "datagram was %d s ago" % (i, ch, f["src"], t - f["last"])))
+                    f["status"], f["why"] = ST_CLOSED, "UDP_CLOSE at step %d" % i
+                    closed_here.add(ch)
+                    self.count("udp_closed_on_wire")
+                    if self.assoc.get(f["src"]) == ch:
+                        del self.assoc[f["src"]]
+            elif cmd in ALLOC_KIND:
+                kind = ALLOC_KIND[cmd]
+                if not 1 <= ch <= self.maxc:
+                    self.bad.append(("bad_identifier", "step %d: identifier %d handed out (MAX_CHANNEL %d)" % (i, ch, self.maxc)))
+                if f and f["status"] == ST_OPEN:
+                    self.bad.append(("reissued", "step %d: identifier %d given to a new %s flow while the %s flow of %r "
+                                     "opened at step %d still owns it" % (i, ch, kind, f["kind"], f["src"], f["step"])))
+                self.count("allocations")
+                if ch <= self.last_alloc:
+                    self.count("allocations_after_wrap")
+                self.last_alloc = ch
+                src = tuple(ev[2][:2]) if ev[0] in ("D", "U") else None
+                if kind == "udp" and src is not None:
+                    if src in self.assoc:
+                        self.bad.append(("second_socket", "step %d: source %r already has the live association %d and was "
+                                         "given %d as well" % (i, src, self.assoc[src], ch)))
+                    self.assoc[src] = ch
+                self.flows[ch] = {"kind": kind, "status": ST_OPEN, "step": i, "t0": t, "last": t,
+                                  "src": src if kind == "udp" else (ev[2] if ev[0] in ("D", "U") else None),
+                                  "dst": ev[3] if ev[0] == "D" and self.method == "T" else None, "why": ""}
+            elif cmd == CMD["D"]:
+                if f and f["kind"] == "udp" and f["status"] != ST_CLOSED:
+                    f["last"] = t
+                    if ev[0] == "U":
+                        src = tuple(ev[2][:2])
+                        f.setdefault("dsts", set()).add(tuple(ev[3][:2]) if ev[3] else None)
+                        if f["src"] != src and self.assoc.get(src) is not None and self.assoc[src] != ch:
+                            self.bad.append(("second_socket", "step %d: datagram of source %r travelled on identifier %d, "
+                                             "its association is %d" % (i, src, ch, self.assoc[src])))
+        if any(cmd == OWN_FRAME[ev[0]] for ch, cmd, data in frames):      # this event swept (c10_expiry)
+            for ch, f in self.flows.items():
+                if f["kind"] == "dns" and f["status"] != ST_CLOSED and f["t0"] + 30 < t:
+                    f["status"], f["why"] = ST_CLOSED, "expired by the sweep of step %d" % i
+                    self.count("dns_expired")
+                if f["kind"] == "udp" and f["status"] == ST_OPEN and f["last"] + 30 < t:
+                    self.bad.append(("idle_not_closed", "step %d: sweep at %d left identifier %d of source %r open, last "
+                                     "datagram at %d" % (i, t, ch, f["src"], f["last"])))
+                    f["status"] = ST_LIMBO
+
+    def _message(self, i, ev, outs):
+        ch, cmdkey, data, err = ev[1:5]
+        dgrams = [o for o in outs if o[0] == "G"]
+        f = self.flows.get(ch)
+        if f is None or f["status"] == ST_CLOSED:
+            self.count("messages_for_closed_identifier" if f else "messages_for_unused_identifier")
+            if dgrams:
+                self.bad.append(("late_delivered", "step %d: message for identifier %d (%s) was not discarded: %r"
+                                 % (i, ch, "never opened" if f is None else "%s flow of %r, %s, not reassigned"
+                                    % (f["kind"], f["src"], f["why"]), dgrams)))
+            return
+        if f["status"] == ST_LIMBO:
+            self.count("messages_in_limbo")
+            if dgrams and f["kind"] == "dns":
+                f["status"], f["why"] = ST_CLOSED, "answered at step %d" % i
+            return
+        if f["kind"] == "dns":
+            must = cmdkey == "R" and err is None and (self.method == "B" or f["dst"] is not None)
+            if must:
+                self.count("dns_replies_for_pending_query")
+                if len(dgrams) != 1 or dgrams[0][2] != addr_s(f["src"]):
+                    self.bad.append(("dns_reply_lost", "step %d: reply on identifier %d for the query of %r asked at %d "
+                                     "(now %d, 30 s not elapsed): delivered %r" % (i, ch, f["src"], f["t0"], self.t, dgrams)))
+            if dgrams or must:
+                f["status"], f["why"] = ST_CLOSED, "answered at step %d" % i
+            else:
+                f["status"] = ST_LIMBO
+        elif f["kind"] == "udp":
+            if cmdkey == "D" and err is None and udp_body_ok(data):
+                self.count("udp_replies_for_open_association")
+                if len(dgrams) != 1 or dgrams[0][2] != addr_s(f["src"]):
+                    self.bad.append(("udp_reply_lost", "step %d: reply on identifier %d for the open association of %r "
+                                     "(UDP_OPEN at step %d, no UDP_CLOSE): delivered %r" % (i, ch, f["src"], f["step"], dgrams)))
+
+    def fanout_sources(self):
+        return sum(1 for f in self.flows.values() if f["kind"] == "udp" and len(f.get("dsts", ())) >= 2)
+
+
+def track_flows(method, maxc, family, evs, steps):
+    tr = FlowTracker(method, maxc, family)
+    for i, ev in enumerate(evs):
+        if i >= len(steps):
+            break
+        tr.feed(i, ev, steps[i])
+    return tr
+
+
+FLOW_CLAUSES = {
+    "C06": {"late_delivered": "c06_late_message_delivered", "dns_reply_lost": "c06_open_flow_lost_its_identifier",
+            "udp_reply_lost": "c06_open_flow_lost_its_identifier", "reissued": "c06_identifier_reissued_while_owned",
+            "bad_identifier": "c06_identifier_out_of_range"},
+    "C08": {"dns_reply_lost": "c08_other_flow_broken_after_fault", "udp_reply_lost": "c08_other_flow_broken_after_fault"},
+    "C10": {"dns_reply_lost": "c10_reply_lost_before_30s"},
+    "C11": {"second_socket": "c11_shared_socket", "udp_reply_lost": "c11_reply_lost",
+            "closed_active": "c11_closed_while_active", "idle_not_closed": "c11_idle_not_closed"},
+}
+
+
+def flow_violations(prop, tr):
+    m = FLOW_CLAUSES[prop]
+    return [(m[w], d) for w, d in tr.bad if w in m]
+
+
+# ---------------------------------------------------------------------- generated flow scripts (adaptive)
+
+ERRNO_ALL = NET_ERRS + OTHER_ERRS + [errno.EPIPE, errno.EAGAIN, errno.ENOMEM, errno.EBADF, errno.ENOTCONN,
+                                     errno.EDESTADDRREQ, errno.EADDRINUSE, errno.EIO]
+
+
+def errname(e):
+    return errno.errorcode.get(e, str(e))
+
+
+def gen_flow_script(rng, profile, quick, fault=None):
+    """Life cycles of DNS / UDP / TCP flows on the real client, generated adaptively (the next event is chosen after
+    looking at what the real code did): profiles 'expiry' (idle gaps around 30 s, some sources kept alive while others
+    expire, late replies), 'wrap' (MAX_CHANNEL 2..6: the cursor comes round to identifiers still owned), 'fanout'
+    (few sources, many destinations).  fault = None | {"mode": "persistent"|"transient", "errno": e, "stage": 0|1}:
+    the delivery of replies to the victim source (persistent: every one; transient: one) is made to fail.
+    Only well-formed events are generated.  Returns (method, maxc, family, evs, steps, tracker, fault_hits)."""
+    method = "B" if (profile != "fanout" and rng.random() < 0.2) else "T"
+    v6 = method == "T" and rng.random() < 0.2
+    family = 10 if v6 else 2
+    if profile == "wrap":
+        maxc = rng.choice([2, 3, 3, 4, 5, 6])
+    else:
+        maxc = rng.choice([8, 65535, 65535])
+    ips = V6 if v6 else V4
+    srcs = [(rng.choice(ips[:3]), 4000 + k, 0, 0) if v6 else (rng.choice(ips[:3]), 4000 + k) for k in range(rng.randint(2, 4))]
+    victim = tuple(srcs[0][:2])
+    now = rng.choice([0, 100, 1000000])
+    n = rng.randint(8, 22 if quick else 40)
+    sess = ClientSession(method, maxc, family)
+    tr = FlowTracker(method, maxc, family)
+    evs, steps = [], []
+    hits = 0
+    transient_left = 1 if fault and fault["mode"] == "transient" else 0
+    gaps = {"expiry": [0, 1, 5, 10, 15, 20, 29, 30, 31, 31, 45], "wrap": [0, 0, 1, 5, 20, 31, 31],
+            "fanout": [0, 0, 1, 5, 29, 31]}[profile]
+    try:
+        for _ in range(n):
+            r = rng.random()
+            opn = tr.pick(ST_OPEN)
+            cls = tr.pick(ST_CLOSED)
+            ev = None
+            if r < 0.22 and opn:
+                mine = [c for c in opn if tr.flows[c]["src"] is not None and tuple(tr.flows[c]["src"][:2]) == victim]
+                ch = rng.choice(mine if fault and mine and rng.random() < 0.6 else opn)
+            elif r < 0.40 and cls:
+                ch = rng.choice(cls)
+            elif r < 0.44:
+                ch = rng.choice([c for c in range(1, min(maxc, 12) + 1)] + [maxc])
+                if tr.flows.get(ch, {}).get("kind") == "tcp":
+                    ch = None
+            else:
+                ch = None
+            if ch is not None:
+                f = tr.flows.get(ch)
+                kind = f["kind"] if f else rng.choice(["dns", "udp"])
+                if kind == "dns":
+                    data, cmdkey = b"ans%d" % len(evs) + rand_payload(rng, False), "R"
+                else:
+                    peer = (rng.choice(ips), rng.choice([53, 123, 4500, 65535]))
+                    data, cmdkey = ("%s,%d," % peer).encode() + b"rep%d" % len(evs) + rand_payload(rng, False), "D"
+                err, stage = None, 1
+                if fault and f and f["status"] == ST_OPEN and f["src"] is not None and tuple(f["src"][:2]) == victim:
+                    if fault["mode"] == "persistent" or transient_left:
+                        err, stage = fault["errno"], fault["stage"]
+                        transient_left = 0
+                        hits += 1
+                ev = ("F", ch, cmdkey, data, err, stage)
+            else:
+                now += rng.choice(gaps)
+                r2 = rng.random()
+                wu = 0.0 if method == "B" else {"expiry": 0.55, "wrap": 0.35, "fanout": 0.8}[profile]
+                if r2 < wu:
+                    live = [s for s in srcs if tuple(s[:2]) in tr.assoc]
+                    src = rng.choice(live) if live and rng.random() < 0.6 else rng.choice(srcs + srcs[:1])
+                    ev = ("U", now, src, (rng.choice(ips), rng.choice([53, 123, 4500, 65535])), b"u%d" % len(evs) + rand_payload(rng, False))
+                elif r2 < wu + 0.06:
+                    ev = ("T", now, family, (rng.choice(ips), rng.choice([22, 80, 443])))
+                else:
+                    src = rng.choice(srcs) if rng.random() < 0.7 else rand_addr(rng, v6, few=False)
+                    ev = ("D", now, src, (rng.choice(ips), 53) if method == "T" else None, b"q%d" % len(evs) + rand_payload(rng, False))
+            st = sess.step(ev)
+            evs.append(ev)
+            steps.append(st)
+            tr.feed(len(evs) - 1, ev, st)
+            if sess.dead:
+                break
+    finally:
+        sess.close()
+    return method, maxc, family, evs, steps, tr, hits
+
+
+def handmade_flow_scripts():
+    """the life cycles the C06 property text names, spelled out: (1) source A goes idle while source B, opened later,
+    stays active; a sweep closes A; a late reply for A, a reply for B, then enough new flows for the cursor to come
+    round; (2) a pending DNS query while TCP accepts / UDP datagrams / other queries run the sweep; (3) a query
+    answered, its duplicate, its identifier re-used by another asker, a third reply"""
+    A, B, C = ("10.0.0.5", 40001), ("10.0.0.6", 40002), ("10.0.0.7", 40003)
+    R, S = ("192.0.2.7", 9999), ("8.8.8.8", 53)
+    out = []
+    for maxc in (3, 4, 65535):
+        for sweep in ("U", "D", "T"):
+            evs = [("U", 1000, A, R, b"a0"), ("U", 1005, B, R, b"b0"), ("U", 1020, B, S, b"b1")]
+            evs.append({"U": ("U", 1040, B, R, b"b2"), "D": ("D", 1040, C, S, b"q"), "T": ("T", 1040, 2, ("9.9.9.9", 80))}[sweep])
+            evs += [("F", 1, "D", b"192.0.2.7,9999,late-reply-for-A", None), ("F", 2, "D", b"192.0.2.7,9999,reply-for-B", None)]
+            evs += [("D", 1041 + k, ("10.0.1.%d" % k, 5000), S, b"fill%d" % k) for k in range(4)]
+            evs += [("F", 2, "D", b"8.8.8.8,53,reply-for-B-2", None), ("U", 1046, B, S, b"b3"), ("U", 1047, A, R, b"a-again")]
+            out.append(("T", maxc, 2, evs))
+    for between in ("T", "U", "D", "TUD"):
+        for meth in ("B", "T"):
+            if meth == "B" and "U" in between:
+                continue
+            dst = S if meth == "T" else None
+            evs = [("D", 500, A, dst, b"pending")]
+            for k, b in enumerate(between):
+                evs.append({"T": ("T", 500 + k, 2, ("9.9.9.9", 443)), "U": ("U", 500 + k, B, R, b"udp"),
+                            "D": ("D", 500 + k, B, dst, b"other")}[b])
+            evs += [("F", 1, "R", b"answer-for-pending", None), ("F", 1, "R", b"duplicate", None)]
+            out.append((meth, 65535, 2, evs))
+    out.append(("B", 2, 2, [("D", 10, A, None, b"q1"), ("F", 1, "R", b"r1", None), ("F", 1, "R", b"dup", None),
+                            ("D", 11, B, None, b"q2"), ("D", 12, C, None, b"q3"), ("F", 1, "R", b"r3", None),
+                            ("F", 2, "R", b"r2", None), ("F", 1, "R", b"late", None), ("D", 50, A, None, b"q4"),
+                            ("D", 50, B, None, b"q5"), ("D", 50, C, None, b"q6 no identifier free"),
+                            ("F", 2, "R", b"r5", None), ("F", 1, "R", b"r4", None)]))
+    return out
+
+
+def run_flow_script(method, maxc, family, evs):
+    steps = run_client(method, maxc, family, evs)
+    return steps, track_flows(method, maxc, family, evs, steps)
+
+
+def crash_of_valid_script(method, evs, steps):
+    """the events of the generated flow scripts are all well-formed, so no step of the real code may raise"""
+    for i, st in enumerate(steps):
+        if not st.startswith("OK "):
+            return [("raised", "step %d %r -> %s" % (i, evs[i][:2], st))]
+    return []
+
+
+def run_c06_dgram(ctx):
+    """C06 on the datagram flows of the real client: identifiers of DNS / UDP flows (FlowTracker clauses
+    late_delivered, *_reply_lost, reissued, bad_identifier)"""
+    rng, quick = ctx.rng, ctx.quick()
+    cases = [(m, mc, fam, evs, "handmade") + run_flow_script(m, mc, fam, evs) for m, mc, fam, evs in handmade_flow_scripts()]
+    for i in range(450 if quick else 8000):
+        profile = ["expiry", "wrap", "expiry", "fanout", "wrap"][i % 5]
+        m, mc, fam, evs, steps, tr, _ = gen_flow_script(rng, profile, quick)
+        cases.append((m, mc, fam, evs, profile, steps, tr))
+    for m, mc, fam, evs, kind, steps, tr in cases:
+        ctx.count("dgram_client_scripts")
+        ctx.count("dgram_client_scripts_" + kind)
+        ctx.count("dgram_client_events", len(evs))
+        for k, v in tr.n.items():
+            ctx.count("dgram_" + k, v)
+        if mc < 10:
+            ctx.count("dgram_client_scripts_tiny_identifier_space")
+        viol = flow_violations("C06", tr) + [("c06_dgram_" + w, d) for w, d in crash_of_valid_script(m, evs, steps)]
+        ctx.case(("dgram", kind, repr(evs)), nontrivial=tr.n.get("allocations", 0) > 0,
+                 sample={"side": "dgram-client", "profile": kind, "method": m, "max_channel": mc, "events": len(evs),
+                         "counts": tr.n, "last_step": steps[-1][:140] if steps else ""})
+        for what, detail in viol:
+            ctx.violation(what, {"script": ser_client(m, mc, fam, evs), "detail": detail, "oracle": "flows"})
+
+
+def replay_flows(prop, rp):
+    sc = rp.get("replay", {}).get("script")
+    if not sc or sc.get("side") != "client":
+        return None
+    m, mc, fam, evs = des_client(sc)
+    steps, tr = run_flow_script(m, mc, fam, evs)
+    v = flow_violations(prop, tr) + crash_of_valid_script(m, evs, steps)
+    print("client script ->", steps[-1] if steps else "", v)
+    return bool(v)
+
+
+# ======================================================================
+# C08 on the datagram flows: socket faults of one flow, persistent or transient, on either end
+
+SERVER_FAULT_KINDS = ["dns_connect", "dns_send", "dns_recv", "udp_sendto", "udp_recvfrom"]
+FAULT_OPS = {"dns_connect": ["connect"], "dns_send": ["send"], "dns_recv": ["recv"], "udp_sendto": ["sendto"],
+             "udp_recvfrom": ["recvfrom"]}
+
+
+class ServerFaultCase:
+    """A conforming peer drives the REAL server.main loop (run_server): a healthy UDP association H (identifier 1) and a
+    healthy DNS query (identifier 2) are opened first; then 1..3 victim flows on fresh identifiers meet socket faults
+    (kind x errno x persistent|transient; persistent = EVERY attempt of the faulted operation fails, for as many
+    iterations as the code keeps trying; transient = one attempt fails, the next succeeds) while H keeps sending; at the
+    end H sends and receives, the old query is answered and a NEW query is asked and answered.
+    Oracle on the real code alone: no iteration raises / ends the loop, and every probe is observed on the fake
+    sockets / the tunnel exactly as injected."""
+
+    def __init__(self, rng, faults):
+        self.rng, self.faults = rng, faults
+        self.sysns = [] if rng.random() < 0.5 else rng.sample(V4, rng.randint(1, 2))
+        self.to_ns = (rng.choice(V4), 53) if not self.sysns and rng.random() < 0.7 else None
+        self.evs, self.steps, self.bad = [], [], []
+        self.t = rng.choice([0, 100, 1000000])
+        self.probes = 0
+
+    def ns(self):
+        return [("n", self.rng.randint(0, 3))] if self.to_ns is None else []
+
+    def it(self, frames, ready, io, dt=1):
+        """append one iteration, re-run the real loop on the whole script, return the new step (None if it stopped)"""
+        self.t += dt
+        self.evs.append((self.t, frames, ready, io))
+        self.steps = run_server(self.to_ns, self.sysns, self.evs)
+        if len(self.steps) < len(self.evs) or not self.steps[len(self.evs) - 1].startswith("OK "):
+            return None
+        return self.steps[len(self.evs) - 1]
+
+    def dns_socks(self, st, ch):
+        for h in st.split(" | ")[1].split(" ")[0][2:].split(","):
+            t = h.split(".")
+            if t[0] == "D" and int(t[1]) == ch:
+                return [] if t[3] == "~" else [int(x) for x in t[3].split("+")]
+        return []
+
+    def udp_sock(self, st, ch):
+        for h in st.split(" | ")[1].split(" ")[0][2:].split(","):
+            t = h.split(".")
+            if t[0] == "U" and int(t[1]) == ch:
+                return int(t[2])
+        return None
+
+    def expect(self, st, token, what):
+        self.probes += 1
+        if st is not None and token not in st.split(" | ")[0][3:].split(","):
+            self.bad.append(("other_flow_broken", "iteration %d: %s: expected %s, real code did %s"
+                             % (len(self.evs) - 1, what, token, st.split(" | ")[0][:300])))
+
+    def h_send(self, tag, extra_frames=(), extra_io=()):
+        dst = ("192.0.2.9", 4500)
+        pay = b"h-" + tag
+        st = self.it([(1, "D", ("%s,%d," % dst).encode() + pay, 0)] + list(extra_frames), [], [("k",)] + list(extra_io))
+        self.expect(st, "T:%d:%s:%s:1" % (self.hsock, addr_s(dst), hx(pay)), "datagram of the healthy association")
+        return st
+
+    def build(self):
+        rng = self.rng
+        st = self.it([(1, "O", b"2", 0), (1, "D", b"192.0.2.9,4500,h-first", 0), (2, "Q", b"healthy-query", 0)], [],
+                     [("k",)] + self.ns() + [("k",), ("k",)])
+        if st is None:
+            return self.finish()
+        self.hsock = self.udp_sock(st, 1)
+        self.qsocks = self.dns_socks(st, 2)
+        self.expect(st, "S:%d:%s:1" % (self.qsocks[0] if self.qsocks else -1, hx(b"healthy-query")), "healthy query sent")
+        for j, (kind, e, persistent) in enumerate(self.faults):
+            ch = 10 + j
+            rule = ("P", e, FAULT_OPS[kind])
+            if kind in ("dns_connect", "dns_send"):
+                if persistent:
+                    io = [rule]
+                else:
+                    io = self.ns() + ([("e", e)] if kind == "dns_connect" else [("k",), ("e", e)]) + self.ns() + [("k",), ("k",)]
+                st = self.h_send(b"during-%d" % j, [(ch, "Q", b"victim-%d" % j, 0)], io)
+            elif kind == "dns_recv":
+                st = self.h_send(b"before-%d" % j, [(ch, "Q", b"victim-%d" % j, 0)], self.ns() + [("k",), ("k",)])
+                for _ in range(4 if persistent else 1):
+                    socks = self.dns_socks(st, ch) if st else []
+                    if not socks:
+                        break
+                    st = self.it([], socks[-1:], [rule] if persistent else [("e", e)] + self.ns() + [("k",), ("k",)])
+            elif kind == "udp_sendto":
+                hdr = b"198.51.100.7,7,"
+                if persistent:
+                    st = self.h_send(b"during-%d" % j, [(ch, "O", b"2", 0), (ch, "D", hdr + b"v0", 0), (ch, "D", hdr + b"v1", 0)], [rule])
+                    st = st and self.it([(ch, "D", hdr + b"v2", 0)], [], [rule])
+                else:
+                    st = self.h_send(b"during-%d" % j, [(ch, "O", b"2", 0), (ch, "D", hdr + b"v0", 0), (ch, "D", hdr + b"v1", 0)],
+                                     [("e", e), ("k",)])
+            else:
+                st = self.h_send(b"before-%d" % j, [(ch, "O", b"2", 0), (ch, "D", b"198.51.100.7,7,v0", 0)], [("k",)])
+                for _ in range(3 if persistent else 1):
+                    vs = self.udp_sock(st, ch) if st else None
+                    if vs is None:
+                        break
+                    st = self.it([], [vs], [rule] if persistent else [("e", e)])
+                if st and rng.random() < 0.5:
+                    st = self.it([(ch, "C", b"", 0)], [], [])
+            if st is None:
+                return self.finish()
+        # probes: everything that was healthy still works, and a new flow can be opened
+        st = self.h_send(b"after", [(3, "Q", b"query-after", 0)], self.ns() + [("k",), ("k",)])
+        if st is None:
+            return self.finish()
+        new = self.dns_socks(st, 3)
+        self.expect(st, "S:%d:%s:1" % (new[0] if new else -1, hx(b"query-after")), "a query asked after the fault is sent")
+        st = self.it([], [self.hsock], [("f", b"h-reply", ("192.0.2.9", 4500))])
+        self.expect(st, "F:1:%d:%s" % (CMD["D"], hx(b"192.0.2.9,4500,h-reply")), "reply for the healthy association relayed")
+        if st is not None and self.qsocks:
+            st = self.it([], self.qsocks[:1], [("d", b"healthy-answer")])
+            self.expect(st, "F:2:%d:%s" % (CMD["R"], hx(b"healthy-answer")), "answer of the healthy query relayed")
+        if st is not None and new:
+            st = self.it([], new[:1], [("d", b"answer-after")])
+            self.expect(st, "F:3:%d:%s" % (CMD["R"], hx(b"answer-after")), "answer of the query asked after the fault relayed")
+        return self.finish()
+
+    def finish(self):
+        for i, st in enumerate(self.steps):
+            if not st.startswith("OK "):
+                self.bad.insert(0, ("server_raised", "iteration %d -> %s (peer conforming; injected: %s)"
+                                    % (i, st, ", ".join("%s %s %s" % (k, errname(e), "persistent" if p else "transient")
+                                                        for k, e, p in self.faults))))
+        if len(self.steps) < len(self.evs) and not any(not s.startswith("OK ") for s in self.steps):
+            self.bad.insert(0, ("server_raised", "the loop stopped after iteration %d" % (len(self.steps) - 1)))
+        return self
+
+
+def server_fault_oracle(to_ns, sysns, evs, steps):
+    """for replay: the failing script is re-run; the loop must survive every iteration"""
+    return [("server_raised", "iteration %d -> %s" % (i, st)) for i, st in enumerate(steps) if not st.startswith("OK ")]
+
+
+def run_c08_dgram(ctx):
+    rng, quick = ctx.rng, ctx.quick()
+    # ---- server: every fault kind x every errno, persistent and transient, alone; then random sequences
+    plans = [[(k, e, p)] for k in SERVER_FAULT_KINDS for e in ERRNO_ALL for p in (True, False)]
+    for _ in range(60 if quick else 2500):
+        plans.append([(rng.choice(SERVER_FAULT_KINDS), rng.choice(ERRNO_ALL), rng.random() < 0.5) for _ in range(rng.randint(2, 3))])
+    for faults in plans:
+        c = ServerFaultCase(rng, faults).build()
+        ctx.count("dgram_server_fault_cases")
+        ctx.count("dgram_server_iterations", len(c.evs))
+        ctx.count("dgram_server_probes_checked", c.probes)
+        for k, e, p in faults:
+            ctx.count("dgram_server_fault_%s_%s" % (k, "persistent" if p else "transient"))
+            ctx.count("dgram_fault_errno_%s" % errname(e))
+        ctx.case(("dgram-server", repr(faults), repr(c.evs)), nontrivial=True,
+                 sample={"side": "dgram-server", "faults": [(k, errname(e), "persistent" if p else "transient") for k, e, p in faults],
+                         "iterations": len(c.evs), "probes": c.probes, "last_step": c.steps[-1][:140] if c.steps else ""})
+        for what, detail in c.bad:
+            ctx.violation("c08_dgram_" + what, {"script": ser_server(c.to_ns, c.sysns, c.evs), "detail": detail,
+                                               "faults": [[k, errname(e), p] for k, e, p in faults], "oracle": "server-faults"})
+    # ---- client: the delivery of replies to one source fails (bind / sendto of the reply socket), every errno
+    plans = [{"mode": mode, "errno": e, "stage": stage} for mode in ("persistent", "transient") for e in ERRNO_ALL for stage in (0, 1)]
+    for i in range(len(plans) * (2 if quick else 40)):
+        fault = plans[i % len(plans)]
+        profile = ["expiry", "fanout", "wrap"][i % 3]
+        m, mc, fam, evs, steps, tr, hits = gen_flow_script(rng, profile, quick, fault)
+        ctx.count("dgram_client_fault_cases")
+        ctx.count("dgram_client_events", len(evs))
+        ctx.count("dgram_client_faults_injected", hits)
+        if hits:
+            ctx.count("dgram_client_fault_%s_%s" % (fault["mode"], ["bind", "sendto"][fault["stage"]] if m == "T" else "sendto"))
+            ctx.count("dgram_fault_errno_%s" % errname(fault["errno"]), hits)
+        ctx.count("dgram_client_replies_checked_on_other_flows",
+                  tr.n.get("dns_replies_for_pending_query", 0) + tr.n.get("udp_replies_for_open_association", 0))
+        viol = flow_violations("C08", tr) + [("c08_dgram_client_" + w, d) for w, d in crash_of_valid_script(m, evs, steps)]
+        ctx.case(("dgram-client", profile, repr(evs)), nontrivial=hits > 0,
+                 sample={"side": "dgram-client", "fault": dict(fault, errno=errname(fault["errno"])), "faults_injected": hits,
+                         "method": m, "max_channel": mc, "events": len(evs)})
+        for what, detail in viol:
+            ctx.violation(what, {"script": ser_client(m, mc, fam, evs), "detail": detail, "oracle": "flows",
+                                 "fault": dict(fault, errno=errname(fault["errno"]))})
+
+
+def replay_c08_dgram(rp):
+    r = rp.get("replay", {})
+    sc = r.get("script")
+    if not sc:
+        return None
+    if sc.get("side") == "server":
+        t, s, evs = des_server(sc)
+        steps = run_server(t, s, evs)
+        v = server_fault_oracle(t, s, evs, steps)
+        print("server script ->", steps[-1] if steps else "", v)
+        return bool(v) or (r.get("oracle") == "server-faults" and "expected" in str(r.get("detail")) and _probe_again(r, steps))
+    return replay_flows("C08", rp)
+
+
+def _probe_again(r, steps):
+    """an 'other_flow_broken' replay: the expected token is quoted in the stored detail"""
+    import re as _re
+    m = _re.search(r"iteration (\d+): .*expected (\S+), real", r.get("detail", ""))
+    if not m or int(m.group(1)) >= len(steps):
+        return True
+    return m.group(2) not in steps[int(m.group(1))].split(" | ")[0][3:].split(",")
